@@ -11,7 +11,9 @@ import (
 	"net/http"
 	"net/url"
 	"os"
+	"runtime"
 	"slices"
+	"strconv"
 	"strings"
 	"sync"
 	"sync/atomic"
@@ -588,6 +590,7 @@ func replayLogVec(r *Run, v logVec, evals *atomic.Int64) {
 }
 
 func checkC20(r *Run) {
+	runLoggerConcurrent(r)
 	statuses := []int{200, 204, 299, 300, 301, 308, 399, 400, 404, 499, 500, 503, 599, 101}
 	if !r.quick() {
 		for s := 100; s < 600; s++ {
@@ -658,6 +661,10 @@ func panicValue(class string) any {
 		return &net.OpError{Op: "write", Net: "tcp", Err: os.NewSyscallError("write", syscall.EPIPE)}
 	case "connReset":
 		return &net.OpError{Op: "read", Net: "tcp", Err: os.NewSyscallError("read", syscall.ECONNRESET)}
+	case "brokenPipeWrapped":
+		return &net.OpError{Op: "write", Net: "tcp", Err: fmt.Errorf("flushing the response: %w", os.NewSyscallError("write", syscall.EPIPE))}
+	case "connResetNested":
+		return &net.OpError{Op: "read", Net: "tcp", Err: &net.OpError{Op: "read", Net: "tcp", Err: os.NewSyscallError("read", syscall.ECONNRESET)}}
 	case "otherOpError":
 		return &net.OpError{Op: "dial", Net: "tcp", Err: errors.New("i/o timeout")}
 	case "error":
@@ -719,6 +726,9 @@ func replayRecCase(r *Run, v recVec, progress string, repanic bool, response str
 			val := panicValue(v.Class)
 			boom := func(c fox.Context) {
 				switch cs.Progress {
+				case "none": // the handler had prepared the headers of the reply it meant to send
+					c.Writer().Header().Set("Content-Length", "3")
+					c.Writer().Header().Set("Content-Type", "application/x-intended")
 				case "header":
 					c.Writer().WriteHeader(202)
 				case "partial":
@@ -818,6 +828,10 @@ func replayRecCase(r *Run, v recVec, progress string, repanic bool, response str
 			case "500":
 				if w.status != 500 {
 					problem = append(problem, fmt.Sprintf("status %d", w.status))
+				}
+				// the 500 reply is a whole response: its declared length, if any, is the length of what is sent
+				if cl := w.h.Get("Content-Length"); cl != "" && cl != strconv.Itoa(len(w.body)) {
+					problem = append(problem, fmt.Sprintf("Content-Length %s declared for a %d byte error reply", cl, len(w.body)))
 				}
 			case "nothing":
 				if w.status != 0 || len(w.body) != 0 {
@@ -937,11 +951,73 @@ func checkC15(r *Run) {
 	r.addCov("header_name_variants", int64(len(names)))
 	r.setCov("exhaustive", true)
 	r.assumption("panics inside managed transaction functions are covered by C04 (FnPanic after every prefix)")
-	r.assumption("a broken-connection error wrapped once more is outside the generated classes (the statement leaves it open)")
+	r.assumption("a *net.OpError that is itself wrapped in another error is outside the generated classes (the statement leaves it open)")
 }
 
 func init() {
 	register("C15", checkC15)
 	register("C19", checkC19)
 	register("C20", checkC20)
+}
+
+// yieldingHandler is a capturing slog handler whose Enabled gives other goroutines a chance to run: whatever the
+// Logger middleware prepared before asking must still be its own when the record is built.
+type yieldingHandler struct{ captureHandler }
+
+func (h *yieldingHandler) Enabled(context.Context, slog.Level) bool {
+	runtime.Gosched()
+	runtime.Gosched()
+	return true
+}
+
+// runLoggerConcurrent: many requests at once on the SAME route (and on the same 404 handler), each with its own path and
+// status; every record must describe one request: the status, the host and the path it carries belong together.
+func runLoggerConcurrent(r *Run) {
+	capH := &yieldingHandler{}
+	status := func(id int) int { return []int{200, 201, 302, 404, 500}[id%5] }
+	rt, err := fox.New(fox.WithMiddleware(fox.LoggerWithHandler(capH)), fox.WithNoRouteHandler(func(c fox.Context) {
+		id, _ := strconv.Atoi(c.QueryParam("id"))
+		c.Writer().WriteHeader(status(id))
+	}))
+	if err != nil {
+		failTool("fox.New: %v", err)
+	}
+	rt.MustHandle("GET", "/l/{id}", func(c fox.Context) {
+		id, _ := strconv.Atoi(c.Param("id"))
+		c.Writer().WriteHeader(status(id))
+	})
+	const G, N = 8, 150
+	var wg sync.WaitGroup
+	for g := 0; g < G; g++ {
+		wg.Add(1)
+		go func(g int) {
+			defer wg.Done()
+			for n := 0; n < N; n++ {
+				id := g*N + n
+				path, q := fmt.Sprintf("/l/%d", id), ""
+				if n%3 == 0 {
+					path, q = fmt.Sprintf("/none/%d", id), fmt.Sprintf("id=%d", id)
+				}
+				req, _ := newRequest("GET", fmt.Sprintf("h%d.example", id), path, q)
+				rt.ServeHTTP(newPlainWriter(), req)
+			}
+		}(g)
+	}
+	wg.Wait()
+	recs := capH.take()
+	r.addCov("concurrent_logger_records", int64(len(recs)))
+	if len(recs) != G*N {
+		r.violation("logger concurrent: records lost or duplicated", map[string]any{"kind": "behaviour", "prescribed": G * N, "obtained": len(recs)})
+		return
+	}
+	for _, rc := range recs {
+		p := rc.Attrs["path"]
+		id, err := strconv.Atoi(p[strings.LastIndexByte(p, '/')+1:])
+		want := fmt.Sprintf("status=%d host=h%d.example", status(id), id)
+		got := fmt.Sprintf("status=%s host=%s", rc.Attrs["status"], rc.Attrs["host"])
+		if err != nil || got != want {
+			r.violation("logger concurrent: a record mixes two requests", map[string]any{"kind": "behaviour", "path": p, "prescribed": want, "obtained": got})
+			return
+		}
+	}
 }
